@@ -940,6 +940,13 @@ def check_C12(rep, tier):
     rep.cov["evaluations"] = n
     rep.cov["traces_validated_against_impl"] = n
     sh.cleanup()
+    # C12 inside the pipeline: an entry attributed to X counts only through a valid signature of X (MC_C12P over Verify.tla)
+    ev0 = rep.cov["evaluations"]
+    vr = VerifyRun(rep, "C12", tag="C12P")
+    vr.tlc("MC_C12P", f"MC_C12P_{tier}.cfg", ["LoadLinks", "LinkSigs", "Agreement", "Finish"])
+    vr.replay(["ed25519"] if tier == "quick" else ["ed25519", "ecdsa"], trace_runs=100)
+    vr.sh.cleanup()
+    rep.cov["pipeline_scenarios"] = rep.cov["evaluations"] - ev0
     rep.assumptions += ["sha256 and the DER/PEM codecs are trusted; the standard SubjectPublicKeyInfo forms are built from fixed templates "
                         "(RFC 8410 ed25519 without parameters, RFC 5480 P-256 with the curve OID, RFC 3279 RSA with NULL)",
                         "key material limited to the committed fixture keys"]
